@@ -238,10 +238,10 @@ def eReplyDiff (r : ERes) (t : ETransition) : Option String :=
   else some s!"outcome model=returns impl={t.kind}"
 
 /-- model agreement for one resolution of the open choices; also returns the model's transition for the classifier -/
-def verdictEWith (t : ETransition) (mask order : Nat) (flip : List Bytes := []) : String × Option (Except Halt (ERes × EState)) :=
+def verdictEWith (t : ETransition) (mask order : Nat) (flip : List Bytes := []) (cmd : Option (List Bytes) := none) : String × Option (Except Halt (ERes × EState)) :=
   if !t.idxOk then ("DIFF index-field of a heap cell differs from its position", none) else
   if callerDbE t != t.ctx.db then (s!"DIFF context-db dispatcher={t.ctx.db} connection-table={callerDbE t}", none) else
-  match stepE t.ctx (envFor t mask order flip) t.pre t.cmd with
+  match stepE t.ctx (envFor t mask order flip) t.pre (cmd.getD t.cmd) with
   | none => ("SKIP unmodelled-command", none)
   | some r =>
     (match r with
@@ -274,9 +274,14 @@ def eVerdict (t : ETransition) : String × Option (Except Halt (ERes × EState))
   let random := t.ctx.cfg.policy == .allkeysRandom || t.ctx.cfg.policy == .volatileRandom
   let flips : List (List Bytes) := if random then sublists ((t.cmd.drop 1).eraseDups.take 3) else [[]]
   let masks := if random then [0] else List.range 32
-  let cands := masks.flatMap fun m => (List.range orders).flatMap fun o => flips.map fun f => (m, o, f)
-  match (cands.drop 1).findSome? fun (m, o, f) =>
-      let v := verdictEWith t m o f
+  -- handleDel ranges over the map returned by KeysExist: the keys are deleted in any order
+  let cmds : List (List Bytes) :=
+    if toLower (t.cmd.headD []) == b "del" && (t.cmd.drop 1).eraseDups.length ≥ 2 && (t.cmd.drop 1).eraseDups.length ≤ 4 then
+      (perms (t.cmd.drop 1).eraseDups).map fun ks => t.cmd.take 1 ++ ks
+    else [t.cmd]
+  let cands := cmds.flatMap fun c => masks.flatMap fun m => (List.range orders).flatMap fun o => flips.map fun f => (m, o, f, c)
+  match (cands.drop 1).findSome? fun (m, o, f, c) =>
+      let v := verdictEWith t m o f (some c)
       if v.1.startsWith "DIFF" then none else some v with
   | some v => v
   | none => first
